@@ -183,13 +183,21 @@ pub fn generate(seed: u64, prop: &str) -> PoolScenario {
         }
     }
     let small_pool = r.chance(1, 3);
-    let pool = PoolCfg {
+    let mut pool = PoolCfg {
         max_tx_pool_size: if small_pool { r.urange(1_500, 6_000) } else { 180_000_000 },
         max_ancestors: *r.pick(&[3usize, 5, 25, 125]),
         min_fee_rate: 1000,
         min_rbf_rate: if r.chance(2, 3) { 1500 } else { 1000 },
         expiry_hours: if r.chance(1, 4) { 1 } else { 12 },
     };
+    // C12 "back in the pool": one run in three has a pool whose policy cannot refuse a returning
+    // transaction (no size limit, ancestor limit out of reach) and the clean skeleton
+    // "pool at rest, reorganisation, pool at rest"
+    let clean_detach = prop == "C12" && Rng::new(seed ^ 0xC12_BAC).chance(1, 3);
+    if clean_detach {
+        pool.max_tx_pool_size = 180_000_000;
+        pool.max_ancestors = 125;
+    }
     // transaction DAG: chains, diamonds, conflicting spends, shared deps
     let ntx = r.urange(6, 40);
     let g = cfg.genesis_cells.len();
@@ -298,7 +306,7 @@ pub fn generate(seed: u64, prop: &str) -> PoolScenario {
             _ => ops.push(POp::Expire),
         }
     }
-    if (prop == "C11" || prop == "C12") && r.chance(2, 5) {
+    if (prop == "C11" || prop == "C12") && (r.chance(2, 5) || clean_detach) {
         // "commit, build on top, detach" skeleton: the first part of the DAG is committed, the rest
         // is submitted on top of it, then a competing branch detaches every mined block so that the
         // committed transactions return to the pool BELOW their pooled descendants and dep users
@@ -321,7 +329,7 @@ pub fn generate(seed: u64, prop: &str) -> PoolScenario {
         }
         sk.push(POp::Quiesce);
         sk.push(POp::Fork { back: r.range(1, mines), len: r.range(1, 3), seed: r.below(1 << 40) });
-        if r.chance(1, 2) {
+        if r.chance(1, 2) && !clean_detach {
             sk.push(POp::Poll { k: r.idx(8) });
             sk.push(POp::Submit { t: r.idx(ntx), remote: false });
         }
@@ -534,6 +542,10 @@ pub struct PoolExec {
     stale_templates: u64,
     /// transactions taken out of the pool by RPC removal (pool-internal events)
     internal_removed: BTreeSet<Byte32>,
+    /// C12 "back in the pool": the main chain before a reorganisation that started from a pool at
+    /// rest (previous operation was a Quiesce); evaluated at the next Quiesce if nothing else happened
+    readd_watch: Option<Vec<usize>>,
+    last_op_quiesce: bool,
 }
 
 fn dummy_network(shared: &ckb_shared::Shared, dir: &Path) -> NetworkController {
@@ -640,6 +652,8 @@ impl PoolExec {
             genesis_outs,
             stale_templates: 0,
             internal_removed: BTreeSet::new(),
+            readd_watch: None,
+            last_op_quiesce: false,
         })
     }
 
@@ -1005,6 +1019,14 @@ impl PoolExec {
     }
 
     fn step(&mut self, op: &POp) {
+        if !matches!(op, POp::Quiesce) {
+            self.readd_watch = None;
+        }
+        self.step_inner(op);
+        self.last_op_quiesce = matches!(op, POp::Quiesce) && self.tasks.is_empty();
+    }
+
+    fn step_inner(&mut self, op: &POp) {
         match op {
             POp::ProbePool { cand } => {
                 self.il.write_u64(0x30);
@@ -1363,6 +1385,10 @@ impl PoolExec {
         self.res.faults.inc("competing_branch");
         if back > 0 {
             self.res.nontrivial = true;
+        }
+        if self.last_op_quiesce && !self.w.st(self.tip_idx).chain.contains(chain.last().unwrap()) {
+            // the pool was at rest and the old tip left the main chain
+            self.readd_watch = Some(chain.clone());
         }
         self.ev(&format!("fork back={back} len={len} -> tip #{}", self.tip_idx));
     }
@@ -2058,6 +2084,80 @@ impl PoolExec {
             }
         }
         let _ = bigmath::big(0);
+        // "transactions that were committed only on the abandoned branch and are still admissible
+        // are back in the pool". Decided only where admissibility is unambiguous: unlimited pool,
+        // ancestor limit out of reach, every input and dep live ON THE NEW CHAIN (no dependence on
+        // other returning transactions), no time locks, no cellbase inputs, fee at least twice the
+        // minimum, nobody else (pooled or returning) spends one of its inputs.
+        if let Some(old_chain) = self.readd_watch.take() {
+            if self.sc.pool.max_tx_pool_size >= 100_000_000 && self.sc.pool.max_ancestors >= 125 && self.res.violation.is_none() {
+                let new_chain: BTreeSet<usize> = st.chain.iter().cloned().collect();
+                let mut returning: Vec<TransactionView> = Vec::new();
+                for bi in old_chain.iter().filter(|b| !new_chain.contains(*b)) {
+                    for tx in self.w.blocks[*bi].view.transactions().iter().skip(1) {
+                        if !st.txs.contains_key(&tx.hash()) {
+                            returning.push(tx.clone());
+                        }
+                    }
+                }
+                let mut claims: BTreeMap<OutPoint, usize> = BTreeMap::new();
+                for tx in returning.iter() {
+                    for i in tx.inputs().into_iter() {
+                        *claims.entry(i.previous_output()).or_default() += 1;
+                    }
+                }
+                for e in &d.entries {
+                    if !returning.iter().any(|t| t.hash() == e.tx.hash()) {
+                        for i in e.tx.inputs().into_iter() {
+                            *claims.entry(i.previous_output()).or_default() += 1;
+                        }
+                    }
+                }
+                // outputs of returning transactions already found admissible (block order = parents first)
+                let mut back: BTreeMap<OutPoint, u64> = BTreeMap::new();
+                for tx in returning.iter() {
+                    self.res.probes.inc("detached_tx_seen_after_clean_reorg");
+                    let mut in_sum = 0u64;
+                    let mut ok = true;
+                    for i in tx.inputs().into_iter() {
+                        let sv: u64 = i.since().into();
+                        let single = claims.get(&i.previous_output()) == Some(&1);
+                        match (st.cells.get(&i.previous_output()), back.get(&i.previous_output())) {
+                            (Some(c), _) if sv == 0 && !(c.is_cellbase() && c.block_number > 0) && single => in_sum += c.capacity(),
+                            (None, Some(cap)) if sv == 0 && single => in_sum += *cap,
+                            _ => ok = false,
+                        }
+                    }
+                    for dp in tx.cell_deps().into_iter() {
+                        let is_group: u8 = dp.dep_type().into();
+                        match st.cells.get(&dp.out_point()) {
+                            Some(c) if is_group == 0 && !(c.is_cellbase() && c.block_number > 0) => {}
+                            _ => ok = false,
+                        }
+                    }
+                    for h in tx.header_deps().into_iter() {
+                        if !self.w.by_hash.get(&h).map(|i| st.chain.get(self.w.blocks[*i].number as usize) == Some(i)).unwrap_or(false) {
+                            ok = false;
+                        }
+                    }
+                    let out_sum: u64 = tx.outputs().into_iter().map(|o| { let c: Capacity = o.capacity().into(); c.as_u64() }).sum();
+                    let size = tx.data().serialized_size_in_block() as u64;
+                    if !ok || in_sum < out_sum || (in_sum - out_sum) < 2 * self.sc.pool.min_fee_rate * size / 1000 + 2 {
+                        self.res.probes.inc("detached_tx_admissibility_ambiguous");
+                        self.res.probes.inc(if !ok { "detached_tx_ambiguous:input_or_dep_not_plainly_live" } else { "detached_tx_ambiguous:fee_near_minimum" });
+                        continue;
+                    }
+                    self.res.probes.inc("detached_admissible_tx_checked");
+                    for (oi, o) in tx.outputs().into_iter().enumerate() {
+                        let c: Capacity = o.capacity().into();
+                        back.insert(OutPoint::new(tx.hash(), oi as u32), c.as_u64());
+                    }
+                    if !pooled.contains_key(&tx.hash()) {
+                        self.viol("C12", "detached_admissible_tx_not_back_in_pool", format!("{why}: tx {} was committed only on the abandoned branch, all its inputs and deps are live on the new chain, it pays {} for {} bytes and nothing conflicts with it, but it is not in the pool", hex(&tx.hash()), in_sum - out_sum, size));
+                    }
+                }
+            }
+        }
     }
 }
 
